@@ -268,7 +268,7 @@ func C12(c *core.Ctx) {
 	c.Rep.Rule = "every PUBREC is answered by PUBREL with the same id; each completion callback fires exactly once, never before the terminal acknowledgement was sent by the peer, and at quiescence has fired once that acknowledgement and those of all earlier requests of the same kind were sent; identifiers of requests simultaneously in flight are non-zero and pairwise distinct"
 	ops := senderOps()
 	if c.Replay != nil {
-		if strings.HasPrefix(c.Replay.Scenario, "sender") && !strings.HasPrefix(c.Replay.Scenario, "sender-race") {
+		if strings.HasPrefix(c.Replay.Scenario, "sender") && !strings.HasPrefix(c.Replay.Scenario, "sender-race") && !strings.HasPrefix(c.Replay.Scenario, "sender-burst") {
 			var hist []int
 			json.Unmarshal(c.Replay.Input, &hist)
 			fmt.Println("replay:", c.Replay.Scenario)
@@ -277,6 +277,7 @@ func C12(c *core.Ctx) {
 			c.Rep.Scenarios++
 			return
 		}
+		c12burst(c)
 		c12sched(c)
 		c12broker(c)
 		c12brokerFlow(c)
@@ -315,9 +316,79 @@ func C12(c *core.Ctx) {
 			}
 		}
 	}
+	c12burst(c)
+	if c.HasViolation() || c.Expired() {
+		return
+	}
 	c12sched(c)
 	c12broker(c)
 	c12brokerFlow(c)
+}
+
+// c12burst: N requests of one kind outstanding at once (every N in 1..36, so the
+// ack queue is exactly full at 16 and 32 and grows at 17 and 33), then all their
+// acknowledgements, oldest or newest first: every completion fires exactly once.
+func c12burst(c *core.Ctx) {
+	if c.Replay != nil && !strings.HasPrefix(c.Replay.Scenario, "sender-burst") {
+		return
+	}
+	ops := senderOps()
+	idx := map[string]int{}
+	for i, o := range ops {
+		idx[o.kind] = i
+	}
+	n := 0
+	for _, kind := range []string{"pub1", "pub2", "sub", "unsub"} {
+		for inflight := 1; inflight <= 36; inflight++ {
+			for _, order := range []string{"oldest", "newest"} {
+				n++
+				name := fmt.Sprintf("sender-burst: %d x %s outstanding, acknowledged %s first", inflight, kind, order)
+				if c.Replay != nil {
+					if c.Replay.Scenario != name {
+						continue
+					}
+				} else {
+					if c.NShards > 1 && n%c.NShards != c.Shard {
+						continue
+					}
+					if !c.Thorough() && (inflight > 33 || (inflight < 14 && inflight%4 != 0)) {
+						continue
+					}
+				}
+				if c.Expired() || c.HasViolation() {
+					return
+				}
+				var hist []int
+				for i := 0; i < inflight; i++ {
+					hist = append(hist, idx["api:"+kind])
+				}
+				acks := map[string][]string{"pub1": {"PUBACK"}, "pub2": {"PUBREC", "PUBCOMP"}, "sub": {"SUBACK"}, "unsub": {"UNSUBACK"}}[kind]
+				for _, a := range acks {
+					for i := 0; i < inflight; i++ {
+						hist = append(hist, idx["ack:"+a+":"+order])
+					}
+				}
+				v, _, steps := runSender(ops, hist, c.Replay != nil)
+				if c.Replay != nil {
+					fmt.Println("replay:", name, "\n  violation:", v)
+					c.Rep.Scenarios++
+					return
+				}
+				c.Rep.Executions++
+				c.Rep.Evaluations++
+				c.Rep.States++
+				c.Rep.Nontrivial++
+				c.Rep.Transitions += int64(steps)
+				if v != "" {
+					if c.Violate("C12 sender-burst :: "+violClass(v), core.Replay{Scenario: name, Message: v}) {
+						return
+					}
+				}
+			}
+		}
+	}
+	c.Rep.Scenarios++
+	c.Rep.Sample(map[string]interface{}{"search": "sender-burst", "kinds": []string{"pub1", "pub2", "sub", "unsub"}, "outstanding": "1..36 (quick: 4,8,12,14..33)", "orders": []string{"oldest", "newest"}})
 }
 
 func init() { core.Register("C12", C12) }
